@@ -678,6 +678,12 @@ func c13run(c *runner.Ctx) runner.Result {
 				res.Violation(fmt.Sprintf("request %s returned %d buckets", sq, len(S1.Tabs)), describe())
 			}
 			singles[s] = t
+			if !w.has(s) && t.N > 0 {
+				wit := describe()
+				wit["request"] = sq.String()
+				wit["response"] = t.dump(20)
+				res.Violation(fmt.Sprintf("request %s returns %d rows although no bucket %s was ever stored", sq, t.N, key), wit)
+			}
 			// (b) projection against the same request without a column list
 			if req.Cols != nil {
 				uq := sq
